@@ -3,6 +3,7 @@ package c02
 import (
 	"fmt"
 	"strings"
+	"time"
 
 	imodels "github.com/influxdata/influxdb/models"
 	"github.com/influxdata/kapacitor"
@@ -47,7 +48,7 @@ func (tr *Tr) mkPoints(pts []Pt) ([]imodels.Point, []string, []any) {
 	for i, p := range pts {
 		seq := tr.nw + i + 1
 		tm := rt.DefaultTime.T(seq)
-		ps = append(ps, rt.MustPoint(p.Meas, map[string]string{"tag": p.Tag}, map[string]any{"seq": int64(seq), "tr": tr.no}, tm))
+		ps = append(ps, mustPoint(p.Meas, map[string]string{"tag": p.Tag}, map[string]any{"seq": int64(seq), "tr": tr.no}, tm))
 		lines = append(lines, fmt.Sprintf("%s,tag=%s seq=%di,tr=%di %d", p.Meas, p.Tag, seq, tr.no, tm.Unix()))
 		enc = append(enc, rt.M{"meas": p.Meas, "tag": p.Tag})
 	}
@@ -80,11 +81,35 @@ func (tr *Tr) Do(op Op) {
 		}
 	case "start":
 		tr.t.Event("Lc", rt.M{"op": "start", "t": op.T, "ret": tr.start(op.T)})
+	case "startfail":
+		// StartTask of a task whose snapshot cannot be loaded: returns an error, the task is not executing
+		tr.w.snaps.setFail(op.T, true)
+		ret := tr.start(op.T)
+		tr.w.snaps.setFail(op.T, false)
+		tr.t.Event("Lc", rt.M{"op": "startfail", "t": op.T, "ret": ret})
+		tr.Obs(op.T)
 	case "stop", "delete":
 		tr.t.Event("Lc", rt.M{"op": op.Kind, "t": op.T, "ret": tr.stop(op.Kind, op.T)})
 		tr.Obs(op.T)
 	default:
 		rt.Fatalf("unknown op %q", op.Kind)
+	}
+}
+
+// guarded runs one lifecycle call with a watchdog.  A call that does not
+// return leaves the TaskMaster stuck (it holds tm.mu): the world is declared
+// dead and the trace is cut short (panic(hang), recovered by Lab.run).
+func (tr *Tr) guarded(what string, f func() error) string {
+	ch := make(chan error, 1)
+	go func() { ch <- f() }()
+	tm := time.NewTimer(callDeadline)
+	defer tm.Stop()
+	select {
+	case err := <-ch:
+		return retStr(err)
+	case <-tm.C:
+		tr.w.dead.Store(true)
+		panic(hang{what})
 	}
 }
 
@@ -94,28 +119,29 @@ func (tr *Tr) start(id string) string {
 	if err != nil {
 		rt.Fatalf("NewTask %s (%s): %v", id, s.Name, err)
 	}
-	_, err = tr.w.Env.TM.StartTask(task)
-	if err == nil {
+	ret := tr.guarded("StartTask "+id, func() error { _, err := tr.w.Env.TM.StartTask(task); return err })
+	if ret == "ok" {
 		tr.exec[id] = true
 	}
-	return retStr(err)
+	return ret
 }
 
 func (tr *Tr) stop(kind, id string) string {
-	var err error
-	if kind == "delete" {
-		err = tr.w.Env.TM.DeleteTask(id)
-	} else {
-		err = tr.w.Env.TM.StopTask(id)
-	}
+	ret := tr.guarded(kind+" "+id, func() error {
+		if kind == "delete" {
+			return tr.w.Env.TM.DeleteTask(id)
+		}
+		return tr.w.Env.TM.StopTask(id)
+	})
 	delete(tr.exec, id)
-	return retStr(err)
+	return ret
 }
 
 // Sync waits for the fence and logs that everything written so far is forked.
 func (tr *Tr) Sync() {
-	tr.w.Sync()
-	tr.t.Event("Sync", nil)
+	if tr.w.Sync() {
+		tr.t.Event("Sync", nil)
+	}
 }
 
 // Obs logs everything the sinks of task id have seen since the trace began.
@@ -143,7 +169,8 @@ func (tr *Tr) Obs(id string) {
 		}
 		sinks = append(sinks, arr)
 	}
-	tr.t.Event("Obs", rt.M{"t": id, "sinks": sinks})
+	edges, collected := orphan(id)
+	tr.t.Event("Obs", rt.M{"t": id, "sinks": sinks, "orphan_edges": edges, "orphan_collected": collected})
 }
 
 // End drains everything deterministically: fence, stop every executing task
